@@ -29,6 +29,7 @@ pub struct World {
     pub items: Vec<Prepared>,
     /// corpus of VERIF_SEED, used by the seeded reader family
     pub seeded_items: Vec<Prepared>,
+    #[allow(dead_code)]
     pub scale: u8,
     /// valid data files for the query families, per `queries::TARGETS` index
     pub data_infos: Vec<Vec<crate::queries::DataInfo>>,
